@@ -5,7 +5,7 @@
    usage: drv_lp prog.txt ckpt_interval < script
    script: P n   process up to n messages            H k   hold the k next messages of the queue
            U i   hand back the i-th held message      A     hand back all held messages
-           G d   announce GVT = (minimum pending timestamp) - d ticks (never below the previous one): fossil, at-gvt release, termination
+           G d   announce GVT = (minimum pending timestamp) - d ticks (never below the previous one; may repeat it): fossil, at-gvt release, termination
            E     end: hand back everything, process until the queue is empty
    stdout: "F lp acc cnt" / "I lp ninit nfini" per LP, "GVTS n", "RET 0" */
 #include "app.h"
@@ -98,7 +98,7 @@ int main(int argc, char **argv)
 			double g = min_pending();
 			if(g == SIMTIME_MAX) continue;
 			g -= app_ticks_to_time(vh_parse_u(tok[1]));
-			if(g <= last_gvt || g <= 0.0) continue;
+			if(g < last_gvt || g <= 0.0) continue;	/* a round that does not advance the GVT is legal and still opens a fossil epoch */
 			last_gvt = g;
 			++ngvt;
 			VERIF_TRACE(VT_GVT, verif_bits(g), 0, 0, 0);
